@@ -80,7 +80,8 @@ PROPS = {
         thorough=dict(runs=150000),
         rule=("each run = 1-3 glob patterns drawn from 8 overlapping ones (absolute and relative, '*', '?', directory wildcards, a path with '..'), "
               "an optional ignore regexp, a small real directory tree and a history of 1-8 actions {create, delete, rename to a free name, replace, "
-              "mkdir/rmdir, rename directory, a directory whose name matches a file pattern, poll}, each followed by an observation; then a unique "
+              "mkdir/rmdir, rename directory, a directory whose name matches a file pattern, poll}, each followed by an observation (one run in four "
+              "the patterns also match an untailable entry, a symlink to a device node); then a unique "
               "probe line is appended to every file of the tree. All interleavings of the pattern pollers (one per pattern, racing to TailPath the same "
               "path), streams and forwarders are sampled by the seeded scheduler. Non-trivial: >= 2 files tailed at once and the tree changed; "
               "distinct = distinct (patterns, ignore, history, schedule signature)."),
@@ -151,7 +152,8 @@ PROPS = {
         quick=dict(runs=4000),
         thorough=dict(runs=120000),
         rule=("each run = program p loaded, lines fed, then 1-7 actions from {reload p with a version from the family identical / comment-only edit / "
-              "declaration moved / kind changed / type changed / keys changed / syntax error — one time in three while lines flow; load or remove a "
+              "declaration moved / kind changed (first or a later declaration) / type changed / keys changed / syntax error — one time in three while lines "
+              "flow; unload p (file removed) and load it again later in any of those versions; load or remove a "
               "second program q whose second declaration conflicts in kind with p's (registration refused after q already declared another metric); "
               "clock advance + GC; more lines incl. delayed deletes}. The harness interprets the lines itself (hits, bytag[tag], g, pending expiry) "
               "and compares with the store after every action; a failed load must leave the exposition byte-identical and the old version running "
@@ -159,7 +161,7 @@ PROPS = {
               "the daemon does) must succeed. Non-trivial: a kept-declaration reload, a failed load or a refused registration happened."),
         assumptions=["after a reload that changes a declaration (moved, kind, type, keys) the statement promises nothing about kept values: value tracking stops, the no-duplicates/gather oracle continues",
                      "programs that deliberately export one name twice are not generated"],
-        expect_probes=["kept_declarations_reload", "failed_load", "registration_refused", "reload_declaration-moved", "reload_type-changed", "reload_keys-changed", "reload_kind-changed", "reload_syntax-error", "reload_identical", "gc", "reload_while_lines_flow"],
+        expect_probes=["unload", "load_after_unload", "reload_later-declaration-kind-changed", "kept_declarations_reload", "failed_load", "registration_refused", "reload_declaration-moved", "reload_type-changed", "reload_keys-changed", "reload_kind-changed", "reload_syntax-error", "reload_identical", "gc", "reload_while_lines_flow"],
         real=["runtime.Runtime", "metrics.Store (Add carry-over, CheckKind, Remove, Gc)", "vm.VM", "exporter.Exporter.Collect + prometheus.Registry.Gather + expfmt", "Go time (fake clock)"],
         stub=[],
     ),
@@ -184,7 +186,8 @@ PROPS = {
         thorough=dict(runs=100000),
         rule=("each run = the whole server in one-shot mode: a witness program (counts every line, every line per getfilename(), and per file how many "
               "numbered lines arrived after a smaller number) plus 0-3 interleaving-insensitive programs, and 1-3 generated log files (0-12 lines: "
-              "numbered, empty, CRLF, optionally a final line without newline; empty files), given by name or by one glob; all goroutines of tailer, "
+              "numbered, empty, CRLF, optionally a final line without newline; empty files), given by name or by one glob (one time in three the "
+              "glob also matches an entry that cannot be tailed, a symlink to a device node, sorting before or between the logs); all goroutines of tailer, "
               "streams, forwarders, fan-out and VMs under the seeded scheduler (1 run in 3 with statement-level preemption). Oracle: Run returns within "
               "the step budget and no task remains; counts equal the harness's own split of the file contents; the extra programs' final metrics equal "
               "a sequential run of the same programs file by file. Non-trivial: >= 2 files and >= 4 lines; distinct = distinct (files, programs, schedule)."),
@@ -200,12 +203,13 @@ PROPS = {
         rule=("each run = the whole server (not one-shot) with simulated pollers: a witness program loaded for the whole run, programs errp/divp whose "
               "runtime errors are a harness-computable function of the line, 1-2 logs, and 2-9 actions from {append 1-4 lines, rotate, truncate, "
               "delete/recreate a log; write a valid / broken / kind-conflicting version of a program, remove it, reload} each followed by an "
-              "observation. After every action: lines_total, log_lines_total[f], prog_runtime_errors_total[p], prog_loads/unloads/load_errors_total[p] "
+              "observation; one append in four leaves an unterminated fragment that the end of that file generation (rotate, truncate, delete, shutdown) "
+              "must deliver and count as a line of its own. After every action and after shutdown: lines_total, log_lines_total[f], prog_runtime_errors_total[p], prog_loads/unloads/load_errors_total[p] "
               "and log_count (read as deltas) must equal the harness's own event counts and the witness program's counters. Non-trivial: lines flowed "
               "and a program or log-file event happened; distinct = distinct (history, schedule signature)."),
-        assumptions=["all appended lines are newline-terminated and histories stay within C16's premises", "expvars are process-global: one run at a time per process, read as deltas",
+        assumptions=["histories stay within C16's premises", "expvars are process-global: one run at a time per process, read as deltas",
                      "reloads are requested through LoadAllPrograms via a generated accessor (verif build tag) for the server's runtime"],
-        expect_probes=["runtime_error_strtol", "runtime_error_div0", "prog_valid", "prog_broken", "prog_refused", "prog_removed", "rotate", "truncate", "delete_log"],
+        expect_probes=["fragment_flushed_as_line", "runtime_error_strtol", "runtime_error_div0", "prog_valid", "prog_broken", "prog_refused", "prog_removed", "rotate", "truncate", "delete_log"],
         real=["mtail.Server (New, Run)", "tailer + file streams", "runtime + VMs", "exporter.New (no push)", "expvar counters"],
         stub=["waker.Waker (simulated ticks)"],
     ),
@@ -213,17 +217,20 @@ PROPS = {
         level="exploration",
         quick=dict(runs=8000),
         thorough=dict(runs=300000),
-        rule=("each run = one stream source reached through tailer.New (unix://, tcp://, unixgram:// or udp://, one-shot on or off) on the in-memory "
-              "transport, 1-4 writer tasks each writing 0-6 uniquely tagged lines (some long, some CRLF) in seeded chunks (stream sockets: optional "
+        rule=("each run = one stream source reached through tailer.New: two runs in three a socket (unix://, tcp://, unixgram:// or udp://, one-shot on "
+              "or off) on the in-memory transport, one in three a named pipe or stdin backed by one — a real kernel FIFO behind the read gate — with one "
+              "writer (arbitrary chunking, optional unterminated tail) or two overlapping writers (whole lines per write), stream ticks interleaved by "
+              "the seed and an optional cancellation at a seeded step. Sockets: 1-4 writer tasks each writing 0-6 uniquely tagged lines (some long, some CRLF) in seeded chunks (stream sockets: optional "
               "unterminated tail, then close; datagram sockets: 1-3 whole lines per datagram), short reads drawn per read, and in one run of three a "
               "cancellation of the stream at a seeded scheduler step while writers are active (including just after a connection was accepted and "
               "with bytes buffered but unread). Oracle: per connection the delivered lines equal the written ones in order, the tail once at close, "
               "no line mixes two connections; with cancellation a prefix (the last delivery may be the part of a line already read); the output "
               "channel closes, nothing panics (send on closed channel), no task remains. Non-trivial: >= 2 writers or an early cancellation."),
-        assumptions=["sockets are the in-memory stub simnet (blocking Accept/Read, past deadline fails a read even with data buffered, EOF after close and drain, Close unblocks with 'use of closed network connection'); named pipes and stdin are NOT covered by this check (a real kernel FIFO cannot be made to block durably inside the bubble without the read gate, which was not built)",
+        assumptions=["sockets are the in-memory stub simnet (blocking Accept/Read, past deadline fails a read even with data buffered, EOF after close and drain, Close unblocks with 'use of closed network connection')",
+                     "named pipes and stdin are real kernel FIFOs; the read gate lets a read through to the kernel only when it cannot block there (bytes pending, no writer, or deadline set) and both writers open the pipe before anything is written (a writer that connects after the last one closed is a new session the reader may already have seen the end of)",
                      "datagram senders send whole newline-terminated lines; no datagram loss or reordering is injected (the statement promises delivery in write order)"],
-        expect_probes=["cancel_with_conn_open", "tail_delivered_at_close", "partial_line_flushed_at_cancel"],
-        real=["logstream.socketStream (accept loop, closer, handleConn)", "logstream.dgramStream", "logstream.SetReadDeadlineOnDone / IsExitableError", "logstream.LineReader", "tailer.Tailer"],
+        expect_probes=["cancel_with_conn_open", "tail_delivered_at_close", "partial_line_flushed_at_cancel", "pipe_run"],
+        real=["logstream.socketStream (accept loop, closer, handleConn)", "logstream.dgramStream", "logstream.fifoStream on a real kernel FIFO (named pipe and stdin)", "logstream.SetReadDeadlineOnDone / IsExitableError", "logstream.LineReader", "tailer.Tailer"],
         stub=["net.Listener / net.Conn / net.PacketConn (simnet)", "waker.Waker"],
     ),
     "C07": dict(
